@@ -20,6 +20,26 @@ def fragLinesList : List Frag → List (Nat × Nat)
   | f :: fs => fragLines f ++ fragLinesList fs
 end
 
+/-! `Frag.cutEnd` (the bottom decoration removed by `find_earlier_page_break`) changes the used geometry only. -/
+
+@[simp] theorem fragLines_cutEnd (f : Frag) : fragLines f.cutEnd = fragLines f := by
+  cases f <;> simp [Frag.cutEnd, fragLines]
+
+@[simp] theorem idx_cutEnd (f : Frag) : f.cutEnd.idx = f.idx := by
+  cases f <;> rfl
+
+@[simp] theorem st_cutEnd (f : Frag) : f.cutEnd.st = f.st := by
+  cases f <;> rfl
+
+@[simp] theorem fragAfterChain_cutEnd (f : Frag) : fragAfterChain f.cutEnd = fragAfterChain f := by
+  cases f <;> simp [Frag.cutEnd, fragAfterChain]
+
+@[simp] theorem fragBeforeChain_cutEnd (f : Frag) : fragBeforeChain f.cutEnd = fragBeforeChain f := by
+  cases f <;> simp [Frag.cutEnd, fragBeforeChain]
+
+@[simp] theorem fragPageEnd_cutEnd (f : Frag) : fragPageEnd f.cutEnd = fragPageEnd f := by
+  cases f <;> simp [Frag.cutEnd, fragPageEnd]
+
 /-- First line of a paragraph designated by the `skip_stack` handed to the paragraph's box. -/
 def paraStart (σ : Option Resume) : Nat := skipLine (subSkipOf σ)
 
